@@ -676,6 +676,8 @@ def main(run):
                         "output": [[g.name, list(g.qubits)] for g in info["out"].queue][:30]})
         for key, what, extra in bad:
             stats["fail:" + key] = stats.get("fail:" + key, 0) + 1
+            if key.startswith("timeout:"):
+                continue     # termination is not part of the property (safety only); counted in stats
             found.setdefault(key, (what, {"spec": spec, "device": devname, **extra}))
         t = coq_terms(spec, info)
         if t:
